@@ -179,10 +179,11 @@ impl Report {
             for e in &self.machinery_errors {
                 eprintln!("MACHINERY-ERROR: {}", e);
             }
-            for v in &unlisted {
-                eprintln!("  (found before the machinery error, not reported as a verdict) {} :: {}", v.fingerprint, first_line(&v.detail));
+            // a part of the check broke down; violations established by the parts that ran to their end are
+            // still reported (each carries its own replay artefact); with none, the run is a machinery exit
+            if unlisted.is_empty() {
+                return 2;
             }
-            return 2;
         }
         if unlisted.is_empty() {
             println!(
